@@ -19,8 +19,10 @@ fn table() -> Vec<(&'static str, &'static str, RunFn, ReplayFn)> {
         ("C09", "exploration", props::c09::run, props::c09::replay),
         ("C10", "exploration", props::c10::run, props::c10::replay),
         ("C11", "exploration", props::c11::run, props::c11::replay),
+        ("C12", "fault_enumeration", props::c12::run, props::c12::replay),
         ("C13", "exploration", props::c13::run, props::c13::replay),
         ("C14", "exploration", props::c14::run, props::c14::replay),
+        ("C15", "exploration", props::c15::run, props::c15::replay),
         ("C16", "fault_enumeration", props::c16::run, props::c16::replay),
         ("C17", "exploration", props::c17::run, props::c17::replay),
         ("C18", "exploration", props::c18::run, props::c18::replay),
